@@ -12,7 +12,7 @@ EXTENDS KeybaseOps
 
 CONSTANTS IKeys,      \* keys imported as raw private keys (the harness owns seeded key material)
           CKeys,      \* slots for keys generated inside the keybase by Create
-          Pass,       \* passphrase ids
+          Pass,       \* passphrase ids 0..n-1
           MaxArmors, RecordHist
 
 Keys == IKeys \cup CKeys
@@ -33,11 +33,13 @@ Init ==
     /\ ret = <<>>
     /\ hist = <<>>
 
-\* every mutating call records the listing the keybase must show afterwards
+\* every mutating call records the listing the keybase must show afterwards and the
+\* passphrase that must unlock each key afterwards (`st`, NONE = not stored); the harness
+\* probes every (key, passphrase) pair at the end of a replayed history
 Mut(op, args, st2, r) ==
     /\ store' = st2
     /\ ret' = <<r>>
-    /\ hist' = Rec(args @@ [op |-> op, ret |-> r, list |-> ListRes(st2)])
+    /\ hist' = Rec(args @@ [op |-> op, ret |-> r, list |-> ListRes(st2), st |-> st2])
 Obs(op, args, r) ==
     /\ UNCHANGED <<store, armors, fresh>>
     /\ ret' = r
